@@ -21,15 +21,44 @@ from __future__ import annotations
 import codecs
 import json
 
-def _source_literals():
-    """connection cap and synthesised error codes as the source states them now"""
+_LITS = None
+
+
+def lits():
+    """Source literals the generator uses (informational, see translate_sse.py): the connection
+    cap in ticks (None = the running code shows no cap), whether the codes of the synthesised
+    errors are known, and notes for the evidence file.  The cap is read from the source when it
+    can be located, otherwise measured once on the running code (entry outcome with a connection
+    that never answers and a very long timeout)."""
+    global _LITS
+    if _LITS is not None:
+        return _LITS
     from . import core, translate_sse
-    vals, _bad = translate_sse.extract(core.REPO / "src" / "chuk_mcp")
-    return vals
+    vals, notes = translate_sse.extract(core.REPO / "src" / "chuk_mcp")
+    out = {"timeout_code": vals["timeout_code"], "fail_codes": vals["fail_codes"], "codes_known": "codes" in vals["found"],
+           "notes": list(notes), "cap_source": "source"}
+    if "cap" in vals["found"]:
+        out["cap"] = round(vals["cap_ms"] * 1024 / 1000)
+    else:
+        from . import sse_h
+        big = 4096 * 1024
+        o = sse_h.run_case({"base": "http://h.test", "T": big, "tie": "events", "conn": {"k": "hang"}, "chunks": [], "close": None,
+                            "bounds": [], "reqs": [], "exit": {"k": "normal", "at": 1}})
+        t = (o.get("enter") or {}).get("t")
+        out["cap"] = t if isinstance(t, int) and 0 < t < big else None
+        out["cap_source"] = "measured"
+    out["notes"].append(f"connection cap = {out['cap']} ticks ({out['cap_source']}); synthesised error codes "
+                        + (f"timeout {out['timeout_code']}, failure {out['fail_codes']} (source)" if out["codes_known"] else "not located: compared without codes"))
+    _LITS = out
+    return out
 
 
-LIT = _source_literals()
-CAP = round(LIT["cap_ms"] * 1024 / 1000)  # min(timeout, 15.0) in transport._handle_sse_connection, in ticks
+def cap():
+    """connection cap in ticks as far as the model is concerned (no cap = beyond every timeout used)"""
+    c = lits()["cap"]
+    return c if c is not None else 10 ** 9
+
+
 T_DEFAULT = 2048
 
 ENDPOINT_FORMS = {
@@ -147,7 +176,7 @@ def model_line(case):
             else:
                 e["b"] = None
         reqs.append(e)
-    return {"m": "ssereq", "url": case.get("base", "http://h.test"), "T": case.get("T", T_DEFAULT), "cap": CAP,
+    return {"m": "ssereq", "url": case.get("base", "http://h.test"), "T": case.get("T", T_DEFAULT), "cap": cap(),
             "conn": conn, "chunks": chunks, "close": close, "dec": table, "reqs": reqs}
 
 
@@ -288,10 +317,12 @@ def establish_cases(budget, rng):
         # (e) slow announcement around the timeout; slow connection around the cap
         for a in (T_DEFAULT - 2, T_DEFAULT + 1, T_DEFAULT + 700):
             out.append(finish({"tie": tie, "conn": {"k": "ok", "at": 1}, "items": [EP], "t0": a, "reqs": [probe_req()]}))
-        for c_at in (CAP - 3, CAP + 3, CAP + 900):
-            out.append(finish({"tie": tie, "T": CAP + 5 * 1024, "conn": {"k": "ok", "at": c_at}, "items": [EP], "t0": c_at + 3, "reqs": [probe_req()]}))
-            out.append(finish({"tie": tie, "T": CAP + 5 * 1024, "conn": {"k": "status", "at": c_at, "code": 404}, "items": [], "reqs": [probe_req()]}))
-        for T in (512, 1024, CAP + 1024):
+        if lits()["cap"] is not None:
+            CAP = lits()["cap"]
+            for c_at in (CAP - 3, CAP + 3, CAP + 900):
+                out.append(finish({"tie": tie, "T": CAP + 5 * 1024, "conn": {"k": "ok", "at": c_at}, "items": [EP], "t0": c_at + 3, "reqs": [probe_req()]}))
+                out.append(finish({"tie": tie, "T": CAP + 5 * 1024, "conn": {"k": "status", "at": c_at, "code": 404}, "items": [], "reqs": [probe_req()]}))
+        for T in (512, 1024, 16 * 1024):
             out.append(finish({"tie": tie, "T": T, "conn": {"k": "ok", "at": 1}, "items": [], "close": None, "reqs": []}))
             out.append(finish({"tie": tie, "T": T, "conn": {"k": "hang"}, "items": [], "reqs": []}))
     # seeded mixtures
